@@ -17,9 +17,7 @@ Definition ext_of (c : ectx) (e : elem) : ext_ref :=
 
 Definition def_of (c : ectx) (e : elem) (de : dataele) (parent_comp : option (option str * Z)) : edef :=
   {| d_usage := e_usage e; d_type := de_type de; d_min := de_min de; d_max := de_max de;
-     d_codes := e_codes e; d_external := ext_of c e; d_regex := e_rec e;
-     d_first_of_optional_composite :=
-       (e_seq e =? 1)%Z && match parent_comp with Some (pu, _) => negb (C15_spec.usage_is pu "R") | None => false end |}.
+     d_codes := e_codes e; d_external := ext_of c e; d_regex := e_rec e |}.
 
 Definition icvn_of (c : ectx) : str := match x_icvn c with Some i => i | None => cs "None" end.
 
